@@ -489,14 +489,18 @@ impl VoiceSpec {
             }
         }
         let mut h = String::new();
-        h.push_str("[GLOBAL]\nHTS_VOICE_VERSION:1.0\n");
+        // the two version entries are independent header fields: usually both "1.0", here also unlike each other (chosen from the
+        // metadata, so compatible voices agree) (seeded change C04j: the two strings cross-assigned)
+        let ver = ["1.0", "1.05", "1.0"][(self.sr / 1000 + self.nstate) % 3];
+        let fver = ["1.0", "1.0", "2.1a", "0.9"][(self.fp + self.nstate) % 4];
+        let _ = writeln!(h, "[GLOBAL]\nHTS_VOICE_VERSION:{}", ver);
         let _ = writeln!(h, "SAMPLING_FREQUENCY:{}", self.sr);
         let _ = writeln!(h, "FRAME_PERIOD:{}", self.fp);
         let _ = writeln!(h, "NUM_STATES:{}", self.nstate);
         let _ = writeln!(h, "NUM_STREAMS:{}", self.streams.len());
         let names: Vec<&str> = self.streams.iter().map(|s| s.name.as_str()).collect();
         let _ = writeln!(h, "STREAM_TYPE:{}", names.join(","));
-        h.push_str("FULLCONTEXT_FORMAT:HTS_TTS_JPN\nFULLCONTEXT_VERSION:1.0\n");
+        let _ = writeln!(h, "FULLCONTEXT_FORMAT:HTS_TTS_JPN\nFULLCONTEXT_VERSION:{}", fver);
         let off: Vec<String> = self.gv_off.iter().map(|p| format!("\"{}\"", p)).collect();
         let _ = writeln!(h, "GV_OFF_CONTEXT:{}", off.join(","));
         h.push_str("COMMENT:\n[STREAM]\n");
